@@ -91,3 +91,92 @@ def solve(cfg, seed=0, **kw):
             name = type(ex).__name__
             out.update(kind=name if name in ("NotImplementedError", "ValueError") else "other", exc=name, msg=str(ex)[:150])
     return out
+
+
+# ------------------------------------------------------------------------------------------
+# flavour-block projections (C01, C52)
+# ------------------------------------------------------------------------------------------
+
+PATCH_MU = {3: 1.2, 4: 3.0, 5: 20.0, 6: 300.0}
+MASSES = [1.51, 4.92, 172.5]
+
+
+ROUNDING = 1e-14
+
+
+def blocks(op):
+    """14 x 14 codes: 0 zero block, 1 the identity, 2 anything else.
+
+    The flavour rotation multiplies by weights like 1/3 and 1/6, which leaves rounding noise of a
+    few 1e-17 in the stored identity; a block counts as zero / identity when it is within
+    ROUNDING = 1e-14 (absolute) of it - nine decades below any perturbative or interpolation effect."""
+    n = op.shape[1]
+    eye = np.eye(n)
+    out = []
+    for a in range(14):
+        row = []
+        for b in range(14):
+            blk = op[a, :, b, :]
+            if not np.isfinite(blk).all():
+                row.append(2)
+            elif np.abs(blk).max() <= ROUNDING:
+                row.append(0)
+            elif np.abs(blk - eye).max() <= ROUNDING:
+                row.append(1)
+            else:
+                row.append(2)
+        out.append(row)
+    return out
+
+
+def general_cards(rng, nf_from, nf_to, *, qcd=1, qed=0, sv="none", xif=1.0, pol=False, tl=False, method=None,
+                  same_point=False, on_wall=False, xgrid=None, degree=None):
+    from ekobox.cards import example
+    from eko.io import runcards
+
+    th = copy.deepcopy(example.raw_theory())
+    op = copy.deepcopy(example.raw_operator())
+    th["order"] = [qcd, qed]
+    th["matching_order"] = [qcd - 1, 0]
+    th["couplings"]["em_running"] = bool(qed and rng.random() < 0.5)
+    th["couplings"]["ref"] = (91.2, 5)
+    th["heavy"]["masses"] = [[m, float("nan")] for m in MASSES]
+    th["heavy"]["matching_ratios"] = [1.0, 1.0, 1.0]
+    th["xif"] = xif
+    mu0 = PATCH_MU[nf_from] * rng.uniform(0.9, 1.1)
+    if on_wall and nf_from >= 4:
+        mu0 = MASSES[nf_from - 4]  # exactly on the lower wall of its patch
+    op["init"] = (mu0, nf_from)
+    if same_point:
+        op["mugrid"] = [(mu0, nf_from)]
+    else:
+        op["mugrid"] = [(PATCH_MU[nf_to] * rng.uniform(1.15, 1.3), nf_to)]
+    op["xgrid"] = xgrid or [0.2, 1.0]
+    c = op["configs"]
+    c["evolution_method"] = method or ("iterate-exact" if qed else rng.choice(METHODS))
+    c["ev_op_iterations"] = 2
+    c["ev_op_max_order"] = [3, 0]
+    c["interpolation_polynomial_degree"] = degree or 1
+    c["scvar_method"] = {"none": None, "expo": "exponentiated", "expanded": "expanded"}[sv]
+    c["inversion_method"] = rng.choice(["exact", "expanded"])
+    c["polarized"] = pol
+    c["time_like"] = tl
+    return runcards.TheoryCard.from_dict(th), runcards.OperatorCard.from_dict(op)
+
+
+def solve_blocks(th, op):
+    import eko
+    from eko.io.struct import EKO
+    from harness.drivers import runner
+
+    out = dict(kind="finite", exc="none", msg="", blocks=[])
+    with runner.scratch() as root, runner.shimmed():
+        try:
+            eko.solve(th, op, root / "o.tar")
+            with EKO.read(root / "o.tar") as e:
+                ep = list(e)[0]
+                out["blocks"] = blocks(e[ep].operator)
+        except Exception as ex:  # noqa: BLE001
+            name = type(ex).__name__
+            out.update(kind=name if name in ("NotImplementedError", "ValueError") else "other", exc=name, msg=str(ex)[:150])
+    return out
